@@ -45,3 +45,7 @@ claim('C18',
 claim('C19',
   'bounded model checking of configuration pairs of the SAME source file linked into one program (second configuration compiled with other macros and all externals renamed): 64- vs 32-bit word builds of the belt length-block/GF helpers and of zz/ww add/sub/compare on octet strings, and the 64-bit vs 32-bit bash-f units for all states; regular vs fast edition is decided under C14',
   'trusted: CBMC; little-endian host; optimisation levels, vector bash-f units and NDEBUG on/off are not covered (see evidence not_decided)', 'DESIGN.md 3/C19')
+
+claim('C06',
+  'bounded model checking of the real point formulas of ecp.c (Jacobian, mixed, affine; negation, addition, subtraction, doubling, tripling, conversions, on-curve test) over an exact small prime field supplied by the harness: for EVERY non-singular curve over GF(7) (thorough: GF(5..13)) and every point pair satisfying the curve equation - O, P=Q, P=-Q, order-2 points included - the result equals the textbook group law; scalar multiplication and the standard curves are not decided',
+  'trusted: CBMC, the reference group law and the exact field in harness/C06/ecp.c; the library field layer is replaced (its arithmetic is C05)', 'DESIGN.md 3/C06')
